@@ -23,12 +23,12 @@ from zverif.spec import Harness, shards
 from zverif.symenv import clock as _clock
 
 ASSUMPTIONS = [
-    'runs on a scratch directory of the real file system (blob files are io.FileIO objects); the data file is a real '
-    'FileStorage file or a MappingStorage wrapped by BlobStorage; scripted clock',
+    'runs on a scratch directory of the real file system (blob files are io.FileIO objects); storages: FileStorage with a blob '
+    'directory (kind file), BlobStorage over MappingStorage (kind mapping), BlobStorage over FileStorage (kind proxy); scripted clock',
     'blob contents are short concrete byte strings; the solver ranges over programs (step codes), the failing phase and '
     'the index of the failing file-system operation',
-    'fault injection wraps os.rename/os.remove/os.link/os.makedirs/shutil.copy* and open-for-writing as used by ZODB.blob '
-    'and ZODB.FileStorage.FileStorage; one fault per commit',
+    'fault injection wraps os.rename/os.remove/os.link/os.makedirs/os.chmod as used by ZODB.blob and ZODB.FileStorage.FileStorage '
+    'and ZODB.utils.cp (a failing copy writes one byte first); one fault per commit / undo',
     'pack is to "now" or to an earlier transaction boundary (pack_mid, directed harnesses); undo is applied to the newest transaction only',
 ]
 
@@ -51,6 +51,9 @@ class BlobWorld:
         self.blob_dir = os.path.join(self.dir, 'blobs')
         if kind == 'file':
             self.s = ZODB.FileStorage.FileStorage(os.path.join(self.dir, 'Data.fs'), blob_dir=self.blob_dir)
+        elif kind == 'proxy':
+            # the blob wrapper over a storage with undo (its own undo / pack code: BlobStorage.undo, _packUndoing)
+            self.s = ZODB.blob.BlobStorage(self.blob_dir, ZODB.FileStorage.FileStorage(os.path.join(self.dir, 'Data.fs')))
         else:
             self.s = ZODB.blob.BlobStorage(self.blob_dir, ZODB.MappingStorage.MappingStorage())
         self.kind = kind
@@ -72,6 +75,8 @@ class BlobWorld:
         self.k = 0
         self.gone = {}           # name -> tid of the transaction that un-created the blob (undo of its creation)
         self.marks = []          # (tid, clock instant just after it) of every transaction boundary that wrote something
+        self.optional = {}       # (name, tid) -> bytes: files the storage MAY keep although no blob revision has that id
+        self.life = {}           # name -> [(tid, exists)]: creation, un-creation by undo, redo
 
     def destroy(self):
         try:
@@ -174,6 +179,8 @@ class BlobWorld:
         change = {}
         for name in self.touched:
             if name in self.work:
+                if name not in self.revs:
+                    self.life[name] = [(tid, True)]
                 self.revs.setdefault(name, []).append((tid, self.work[name], None))
                 self.oid[name] = self.root[name]._p_oid
                 change[name] = (self.committed.get(name), self.work[name])
@@ -277,8 +284,62 @@ class BlobWorld:
         self._revert()
         return 'conflict:' + name
 
+    def undo_older(self):
+        """Undo the second-newest transaction.  If the newest one wrote one of the same blobs the undo must be refused
+        (the later bytes would be lost) and change nothing; otherwise it applies like any undo."""
+        if len(self.history) < 2 or self.touched or self.sps or self.kind == 'mapping':
+            return None
+        (tid, change), (t2, later) = self.history[-2], self.history[-1]
+        if t2 != self.s.lastTransaction() or not change:
+            return None
+        import base64
+        from ZODB.POSException import UndoError
+        overlap = set(change) & set(later)
+        try:
+            self.db.undo(base64.encodebytes(tid).rstrip(), self.tm.get())
+            self.tm.commit()
+            ok = True
+        except UndoError:
+            ok = False
+            self.tm.abort()
+        check(ok == (not overlap), 'undo of a blob transaction whose blob was written again later was accepted (the later bytes are '
+                                   'lost) / an independent undo was refused', sorted(overlap))
+        if not ok:
+            self._revert()
+            return 'undo_older(refused)'
+        return self._undo_model(tid, change, 'undo_older')
+
+    def faulty_undo(self, f):
+        """Undo of the newest transaction during which the f-th file-system operation of the blob code fails: either the
+        undo stands completely or nothing of it remains."""
+        if not self.history or self.touched or self.sps or self.kind == 'mapping':
+            return None
+        tid, change = self.history[-1]
+        if tid != self.s.lastTransaction():
+            return None
+        import base64
+        inj = _Injector(f)
+        inj.install()
+        try:
+            try:
+                self.db.undo(base64.encodebytes(tid).rstrip(), self.tm.get())
+                self.tm.commit()
+                ok = True
+            except Exception:
+                ok = False
+        finally:
+            inj.uninstall()
+        if ok:
+            # f beyond the last operation, or the failing operation was not essential: an ordinary undo.  Redo the
+            # bookkeeping of undo_last for a transaction that is already committed.
+            self.tm.abort()
+            return self._undo_model(tid, change, 'faulty_undo(%s)' % (inj.fired or 'none'))
+        self.tm.abort()
+        self._revert()
+        return 'faulty_undo(%d:%s)' % (inj.fired_at, inj.fired) if inj.fired else None
+
     def undo_last(self):
-        if not self.history or self.touched or self.sps or self.kind != 'file':
+        if not self.history or self.touched or self.sps or self.kind == 'mapping':
             return None          # (MappingStorage has no undo)
         tid, change = self.history[-1]
         if tid != self.s.lastTransaction():
@@ -286,6 +347,9 @@ class BlobWorld:
         import base64
         self.db.undo(base64.encodebytes(tid).rstrip(), self.tm.get())
         self.tm.commit()
+        return self._undo_model(tid, change, 'undo')
+
+    def _undo_model(self, tid, change, tag):
         utid = self.s.lastTransaction()
         self._mark()
         inverse = {}
@@ -293,36 +357,73 @@ class BlobWorld:
             if prev is None:
                 self.committed.pop(name, None)         # creation undone: the blob is gone from the root
                 self.gone[name] = utid
+                self.life[name].append((utid, False))
+                if self.kind == 'proxy':
+                    # by design the blob wrapper keeps a copy of the created blob's file under the undo transaction's id
+                    # ("in case a user wishes to undo this undo"); the next pack removes it
+                    self.optional[(name, utid)] = new
             else:
                 self.committed[name] = prev
                 # undo brings back the previous bytes as a new revision; its record points back to the revision
                 # that held those bytes (the newest earlier revision with them), which a later pack must keep
                 src = [r[0] for r in self.revs.get(name, []) if r[0] < tid and r[1] == prev]
-                self.gone.pop(name, None)
+                if self.gone.pop(name, None) is not None:
+                    self.life[name].append((utid, True))
                 self.revs.setdefault(name, []).append((utid, prev, src[-1] if src else None))
             inverse[name] = (new, prev)
         self.history.append((utid, inverse))           # an undo is an ordinary transaction: it can be undone
         self.work = dict(self.committed)
-        return 'undo'
+        return tag
+
+    def _after_pack(self, stop_tid):
+        """Model of the blob files after a pack to the boundary stop_tid.  Revisions written after the pack time, and
+        the revision current at the pack time of a blob that exists then (blobs hang off the root; a blob does not
+        exist while its creation is undone), must stay loadable with their files.  For every other (superseded
+        or garbage) revision the property asks for consistency - "pack removes precisely the files of the revisions
+        it removes": its file exists exactly if the storage still serves that revision (loadSerial).  Which
+        superseded revisions a storage keeps is C07's subject."""
+        from ZODB.POSException import POSKeyError
+        for name in list(self.revs):
+            rs = self.revs[name]
+            old = [r for r in rs if r[0] <= stop_tid]
+            new = [r for r in rs if r[0] > stop_tid]
+            ev = [e for e in self.life.get(name, []) if e[0] <= stop_tid]
+            must = (old[-1:] if ev and ev[-1][1] else []) + new
+            needed = set(r[2] for r in new if r[2] is not None)       # revisions that later undo records point back to
+            keep = []
+            for r in rs:
+                if any(r is m for m in must):
+                    keep.append(r)
+                    continue
+                try:
+                    self.s.loadSerial(self.oid[name], r[0])
+                    keep.append(r)
+                except (POSKeyError, KeyError):
+                    # not served any more: the file must be gone - except that a storage may keep the data of a
+                    # revision (and with it the file) that a later undo record points back to
+                    if r[0] in needed and os.path.exists(self.s.fshelper.getBlobFilename(self.oid[name], r[0])):
+                        keep.append(r)
+            if keep:
+                self.revs[name] = keep
+            else:
+                del self.revs[name]
+        for key in list(self.optional):
+            if key[1] <= stop_tid:
+                del self.optional[key]            # helper copies are not revisions: a pack over them removes them
+        self.history = [(t, ch) for (t, ch) in self.history if t > stop_tid]
 
     def pack(self):
         if self.touched or self.sps:
             return None
         from ZODB.serialize import referencesf
         self.s.pack(self.clock.time(), referencesf)
-        # only the current revision of each blob that is still reachable keeps its file
-        for name in list(self.revs):
-            if name in self.committed:
-                self.revs[name] = self.revs[name][-1:]
-            else:
-                del self.revs[name]
-        self.history = []          # packed transactions are not undoable
+        self._after_pack(self.s.lastTransaction())
         return 'pack'
 
     def undo2_fail(self):
         """Undo the two newest transactions in ONE transaction whose commit then fails at another participant's
         vote: nothing changes, and no blob file of the failed undo transaction remains."""
-        if len(self.history) < 2 or self.touched or self.sps or self.kind != 'file':
+        if len(self.history) < 2 or self.touched or self.sps or self.kind == 'mapping':
             return None
         (t1, _), (t2, _) = self.history[-2], self.history[-1]
         if t2 != self.s.lastTransaction():
@@ -346,16 +447,7 @@ class BlobWorld:
         from ZODB.serialize import referencesf
         stop_tid, when = self.marks[-3]
         self.s.pack(when, referencesf)
-        for name in list(self.revs):
-            rs = self.revs[name]
-            if name in self.gone and self.gone[name] <= stop_tid:
-                del self.revs[name]                   # the object did not exist any more at the pack time: garbage
-                continue
-            old = [r for r in rs if r[0] <= stop_tid]
-            new = [r for r in rs if r[0] > stop_tid]
-            needed = set(r[2] for r in new if r[2] is not None)       # revisions later undo records point back to
-            self.revs[name] = [r for r in old if r is old[-1] or r[0] in needed] + new
-        self.history = [(t, ch) for (t, ch) in self.history if t > stop_tid]
+        self._after_pack(stop_tid)
         return 'pack_mid'
 
     # -- checks -------------------------------------------------------------
@@ -386,6 +478,10 @@ class BlobWorld:
         for name, rs in self.revs.items():
             for tid, data, _src in rs:
                 want[self.s.fshelper.getBlobFilename(self.oid[name], tid)] = data
+        for (name, tid), data in self.optional.items():
+            p = self.s.fshelper.getBlobFilename(self.oid[name], tid)
+            if p in files and p not in want:
+                want[p] = data
         check(sorted(files) == sorted(want), 'set of committed blob files differs from the committed blob revisions (%s)' % where,
               sorted(os.path.relpath(p, self.blob_dir) for p in set(files) ^ set(want)))
         for p in want:
@@ -446,12 +542,30 @@ class _Injector:
                     return self._wrap(n, v)
                 return v
         for mod in (BL, F):
-            self.saved.append((mod, mod.os))
+            self.saved.append((mod, 'os', mod.os))
             mod.os = OS(mod.os)
+        # file copies (undo copies blob files): the failing copy writes one byte and then fails, as a full disk does
+        import ZODB.utils as U
+        real_cp = U.cp
+
+        def partial_cp(f1, f2, length=None, bufsize=64 * 1024):
+            i = self.n
+            self.n += 1
+            if self.fired is None and i == self.f:
+                self.fired = 'cp'
+                self.fired_at = i
+                f2.write(f1.read(1))
+                raise OSError(28, 'injected failure of a file copy after one byte')
+            return real_cp(f1, f2, length, bufsize)
+        self.saved.append((U, 'cp', U.cp))
+        U.cp = partial_cp
+        if getattr(F, 'cp', None) is real_cp:
+            self.saved.append((F, 'cp', F.cp))
+            F.cp = partial_cp
 
     def uninstall(self):
-        for mod, real in self.saved:
-            mod.os = real
+        for mod, name, real in self.saved:
+            setattr(mod, name, real)
 
 
 CODES = ['new', 'rewrite0', 'append0', 'consume0', 'rewrite1', 'savepoint', 'rollback', 'commit', 'abort',
@@ -487,6 +601,8 @@ def _step(w, code, other):
         return w.undo2_fail()
     if code.startswith('conflict'):
         return w.conflict_commit(int(code[-1]))
+    if code == 'undo_older':
+        return w.undo_older()
     raise ValueError(code)
 
 
@@ -503,7 +619,7 @@ def _run(codes, kind, other, fault=None):
             trace.append(t)
             where = ' '.join(trace)
             w.check_view(where)
-            if code in ('commit', 'abort', 'undo', 'pack', 'pack_mid', 'undo2_fail') or code.startswith(('fail_', 'conflict')):
+            if code in ('commit', 'abort', 'undo', 'undo_older', 'pack', 'pack_mid', 'undo2_fail') or code.startswith(('fail_', 'conflict')):
                 w.check_disk(where)
                 w.check_other(where)
             elif code in ('savepoint', 'rollback'):
@@ -565,16 +681,16 @@ def h_directed_sp(a: int, b: int, c: int, extra_sp: bool, end_commit: bool, kind
     reached()
 
 
-def h_directed_undo_pack(u1: bool, w3: bool, u2: bool, with_new: int, packsel: int, kind: str) -> None:
+def h_directed_undo_pack(u1: bool, w3: bool, u2: bool, with_new: int, packsel: int, other: bool, kind: str) -> None:
     """write, commit, write, commit, [undo], [write, commit], [undo], then pack to now / to an earlier time /
     not at all: the blob files on disk are exactly those of the revisions that remain."""
-    pk = ['pack', 'pack_mid', 'nothing', 'undo2_fail'][choose(packsel, 4)]
+    pk = ['pack', 'pack_mid', 'nothing', 'undo2_fail', 'undo_older'][choose(packsel, 5)]
     wn = choose(with_new, 3)          # a second blob created in the first (1) or second (2) transaction, or not at all
     codes = (['new'] if wn == 1 else []) + ['rewrite0', 'commit'] + (['new'] if wn == 2 else []) + ['append0', 'commit'] + (['undo'] if u1 else []) + (['consume0', 'commit'] if w3 else []) \
         + (['undo'] if u2 else []) + [pk]
     codes = [x for x in codes if x != 'nothing']
     with untraced():
-        _run(codes, kind, True)
+        _run(codes, kind, other)
     reached()
 
 
@@ -706,6 +822,39 @@ def h_foreign_abort(where: int, nblobs: int, kind: str) -> None:
     reached()
 
 
+def h_undo_fault(f: int, w2: bool, kind: str) -> None:
+    """Blob written in two (or three) transactions, then an undo of the newest one during which the f-th
+    file-system operation of the blob code (rename, remove, link, makedirs, chmod, file copy cut after one byte)
+    fails: the undo either stands completely or leaves no file behind; a later undo works."""
+    ff = pick(f, 0, 10)
+    with untraced():
+        w = BlobWorld(kind)
+        try:
+            w.new(False)
+            w.commit()
+            trace = []
+            for code in ['rewrite0', 'commit'] + (['new', 'append0', 'commit'] if w2 else []):
+                trace.append(_step(w, code, True))
+            t = w.faulty_undo(ff)
+            if t is None:
+                assume(False)
+            trace.append(t)
+            note('fault', t)
+            where = ' '.join(trace)
+            w.check_view(where)
+            w.check_disk(where)
+            w.check_other(where)
+            t = w.undo_last()
+            check(t is not None, 'no undoable transaction after a (failed) undo')
+            where += ' undo'
+            w.check_view(where)
+            w.check_disk(where)
+            w.check_other(where)
+        finally:
+            w.destroy()
+    reached()
+
+
 _FIRST = ['new', 'rewrite0', 'append0', 'consume0', 'savepoint', 'fail_commit>', 'fail_vote>', 'undo', 'pack']
 HARNESSES = [
     Harness('program', h_program,
@@ -720,9 +869,9 @@ HARNESSES = [
             code=['Blob.open/consumeFile/_p_invalidate/_uncommitted', 'BlobStorageMixin.storeBlob/_blob_storeblob/_blob_tpc_abort/'
                   '_blob_tpc_finish', 'FileStorage._abort/_finish_finish/undo (blob copy)/pack (_remove_blob_files_tagged_for_removal_during_pack)',
                   'BlobStorage.tpc_abort/tpc_finish/undo/pack', 'Connection._store_objects (blobs)', 'TmpStore.storeBlob/loadBlob'],
-            quick=dict(timeout=200, shards=shards(n=[2], kind=['file', 'mapping'], other=[True], first=['any'])
-                       + shards(n=[3], kind=['file'], other=[False], first=_FIRST)),
-            thorough=dict(timeout=3000, shards=shards(n=[3], kind=['file', 'mapping'], other=[True, False], first=CODES)
+            quick=dict(timeout=200, shards=shards(n=[2], kind=['file', 'mapping', 'proxy'], other=[True], first=['any'])
+                       + shards(n=[3], kind=['file'], other=[False], first=_FIRST) + shards(n=[3], kind=['proxy'], other=[False], first=['undo', 'rewrite0'])),
+            thorough=dict(timeout=3000, shards=shards(n=[3], kind=['file', 'mapping', 'proxy'], other=[True, False], first=CODES)
                           + shards(n=[4], kind=['file'], other=[True], first=CODES))),
     Harness('directed_sp', h_directed_sp,
             decides='blob writes around savepoints: after rolling back to the first savepoint (also with a later savepoint taken in '
@@ -730,7 +879,7 @@ HARNESSES = [
             symbolic='3 write selectors (nothing/rewrite/append/consume/new), optional second savepoint, commit or abort',
             bounds='programs of 4-7 steps of this shape', oracle='blob model',
             code=['TmpStore.storeBlob/loadBlob/reset', 'Connection._rollback_savepoint', 'Blob._p_invalidate'],
-            quick=dict(timeout=150, shards=shards(kind=['file', 'mapping'])), thorough=dict(timeout=300, shards=shards(kind=['file', 'mapping']))),
+            quick=dict(timeout=150, shards=shards(kind=['file', 'mapping', 'proxy'])), thorough=dict(timeout=300, shards=shards(kind=['file', 'mapping', 'proxy']))),
     Harness('directed_undo_pack', h_directed_undo_pack,
             decides='write/commit/undo chains followed by a pack to now or to an earlier time: the *.blob files are exactly those of the '
                     'revisions the pack keeps (undo revisions included), bytes identical',
@@ -738,7 +887,7 @@ HARNESSES = [
             bounds='programs of 5-10 steps of this shape', oracle='blob revision model',
             code=['FileStorage.undo (blob copy)', 'fspack.copyDataRecords (blob_removed)', 'FileStorage._remove_blob_files_tagged_for_removal_during_pack',
                   'BlobStorage._packNonUndoing/_packUndoing'],
-            quick=dict(timeout=150, shards=shards(kind=['file', 'mapping'])), thorough=dict(timeout=300, shards=shards(kind=['file', 'mapping']))),
+            quick=dict(timeout=150, shards=shards(kind=['file', 'mapping', 'proxy'])), thorough=dict(timeout=300, shards=shards(kind=['file', 'mapping', 'proxy']))),
     Harness('directed_unlink_pack', h_directed_unlink_pack,
             decides='a blob unlinked from the root and written again later (linked again or not): after a pack to any transaction '
                     'boundary the files of all revisions written after the pack time exist, those of superseded / garbage revisions are gone',
@@ -746,14 +895,20 @@ HARNESSES = [
             bounds='one blob, 4-6 transactions', oracle='blob revision model + root membership per transaction',
             code=['fspack.copyDataRecords (blob_removed)', 'GC.findReachable*', 'FileStorage._remove_blob_files_tagged_for_removal_during_pack',
                   'BlobStorage._packNonUndoing'],
-            quick=dict(timeout=150, shards=shards(kind=['file', 'mapping'])), thorough=dict(timeout=300, shards=shards(kind=['file', 'mapping']))),
+            quick=dict(timeout=150, shards=shards(kind=['file', 'mapping', 'proxy'])), thorough=dict(timeout=300, shards=shards(kind=['file', 'mapping', 'proxy']))),
     Harness('foreign_abort', h_foreign_abort,
             decides='tpc_abort with a transaction other than the one being committed, at any point of a blob commit, has no effect: '
                     'the commit finishes with all blob files in place',
             symbolic='point of the foreign call (after begin / after the stores / after the vote), number of blobs (1-2)',
             bounds='storage-level two-phase commit of 1-2 new blobs', oracle='loadBlob bytes',
             code=['BlobStorage.tpc_abort', 'BlobStorageMixin._blob_tpc_abort/storeBlob', 'BaseStorage.tpc_abort', 'FileStorage._abort'],
-            quick=dict(timeout=60, shards=shards(kind=['file', 'mapping'])), thorough=dict(timeout=120, shards=shards(kind=['file', 'mapping']))),
+            quick=dict(timeout=60, shards=shards(kind=['file', 'mapping', 'proxy'])), thorough=dict(timeout=120, shards=shards(kind=['file', 'mapping', 'proxy']))),
+    Harness('undo_fault', h_undo_fault,
+            decides='an undo of a blob transaction during which any one file-system operation of the blob code fails (incl. a blob '
+                    'copy cut after its first byte) either stands completely or leaves no file of the undo behind; undo works afterwards',
+            symbolic='f = index of the failing operation (0..9), optional third transaction with a second blob', bounds='one fault per undo',
+            oracle='blob revision model + directory listing', code=['BlobStorage.undo', 'FileStorage._txn_undo_write (blob copy)', '_blob_storeblob', '_blob_tpc_abort'],
+            quick=dict(timeout=100, shards=shards(kind=['file', 'proxy'])), thorough=dict(timeout=200, shards=shards(kind=['file', 'proxy']))),
     Harness('fault', h_fault,
             decides='a commit during which any one file-system operation of the blob code fails either stands completely or leaves '
                     'no file of that transaction; the next transaction commits normally',
